@@ -173,7 +173,11 @@ theorem Delta_step (s : Rpc) (op : Op) : Delta s (step s op).1 (step s op).2 := 
   cases op with
   | request c => exact Delta_request s c
   | notify => refine ⟨Nat.le_refl _, ?_⟩; intro t; simp [step, firedCount]
-  | response id code => exact Delta_complete s id code
+  | response id code =>
+    simp only [step, Rpc.respond, Rpc.respondG]
+    split
+    · exact Delta_refl s
+    · exact Delta_complete s _ code
   | tick => exact Delta_tick s
 
 theorem Delta_run (ops : List Op) : ∀ s : Rpc, Delta s (run s ops).1 (run s ops).2 := by
